@@ -9,7 +9,7 @@ import yaml
 from hypothesis import strategies as st
 
 from vf import cli
-from vf.core import HarnessError, HypPart, Oracle, VERIF_DIR, spsdk_frame
+from vf.core import HarnessError, HypPart, Oracle, VERIF_DIR, case_digest, reorder, spsdk_frame
 from vf.gen import keys as K
 from vf.ref import sb31_rom
 
@@ -320,8 +320,10 @@ def _build_from_config(case, o: Oracle, roots, used, isk, user_data, commands, s
             with open(os.path.join(wd, "isk_data.bin"), "wb") as f:
                 f.write(user_data)
             cbc["signCertData"] = "isk_data.bin"
+    # the keys of both mappings are written in an order picked with the case (a mapping has none)
+    order_salt = int(case_digest(case)[:8], 16)
     with open(os.path.join(wd, "cert_block.yaml"), "w") as f:
-        yaml.safe_dump(cbc, f)
+        yaml.safe_dump(reorder(cbc, order_salt), f, sort_keys=False)
     with open(os.path.join(wd, "sign_key.pem"), "wb") as f:
         f.write(K.private_pem(K.key_from_desc(signer)))
     cfg = {"family": family, "containerOutputFile": "out.sb3", "firmwareVersion": case["firmware_version"], "certBlock": "cert_block.yaml",
@@ -331,6 +333,8 @@ def _build_from_config(case, o: Oracle, roots, used, isk, user_data, commands, s
         cfg["description"] = case["description"]
     if case["encrypted"]:
         cfg["containerKeyBlobEncryptionKey"] = bytes(pck).hex()
+    cfg = reorder(cfg, order_salt)
+    o.label("cfg_key_order:%d" % (order_salt % 3))
     with o.spsdk("config", "check_config"):
         check_config(cfg, SecureBinary31.get_validation_schemas(family), search_paths=[wd])
     sb = SecureBinary31.load_from_config(cfg, search_paths=[wd])
